@@ -112,6 +112,8 @@ class Gen:
                 fl.update(tri=True)
             elif kind == "perm":
                 r = {"k": "perm", "n": n, "seed": s, "dtype": rdt}
+                if g.random() < 0.3:
+                    r["neg"] = True  # index array with entries counted from the end
                 fl.update(unitary=True, dt=rdt, real=True)
             elif kind == "householder":
                 r = {"k": "householder", "n": n, "dtype": dt, "seed": s}
@@ -809,6 +811,7 @@ KINDS = {  # name -> (slot, recipe, rows, cols)
     "dense": ("D", DN, N, N), "generic": ("Gn", GE2, N, N), "identity": ("I", ID, N, N), "diag": ("Dg", DG, N, N),
     "tridiag": ("T3", {"k": "tridiag", "n": N, "seed": 21, "symm": False}, N, N),
     "perm": ("Pm", {"k": "perm", "n": N, "seed": 22}, N, N),
+    "perm_neg": ("Pmn", {"k": "perm", "n": N, "seed": 27, "neg": True}, N, N),
     "tri": ("Tr", {"k": "tri", "n": N, "seed": 23}, N, N),
     "sparse": ("Sp", {"k": "sparse", "n": N, "seed": 24}, N, N),
     "kernel": ("Ke", {"k": "kernel", "n": N, "seed": 25, "bs1": 1, "bs2": 2}, N, N),
